@@ -440,6 +440,30 @@ TypedRowOK(kinds, row, fmt, dev) ==
     /\ \A j \in DOMAIN row : IF j <= Len(kinds) THEN TypedAcceptable(kinds[j], row[j], fmt, dev)
                                                ELSE row[j].k = "ids" /\ row[j].v = <<>>
 
+(* ------------------ C02 / C13: typed values are visible in the sheet text ------------------
+   The text line of the data row shows every value, in column order, in a display form of its value.       *)
+TextForms(kind) ==
+    CASE kind = "n"    -> {"7", "7.0"}
+      [] kind = "nf"   -> {"1.5"}
+      [] kind = "z"    -> {"0", "0.0"}
+      [] kind = "b"    -> {"True", "true", "TRUE"}
+      [] kind = "bf"   -> {"False", "false", "FALSE"}
+      [] kind = "d"    -> {"2024-01-02T03:04:05"}
+      [] kind = "date" -> {"2024-01-02", "2024-01-02T00:00:00"}
+      [] kind = "t"    -> {"03:04:05", "PT03H04M05S"}
+      [] kind = "e"    -> {"#DIV/0!", "#ERROR"}
+      [] kind = "f"    -> {"2.5"}
+      [] OTHER         -> {}
+RECURSIVE TypedTextFrom(_, _, _, _)
+TypedTextFrom(kinds, ws, k, i) ==
+    IF k > Len(kinds) THEN i = Len(ws) + 1
+    ELSE IF kinds[k] = "empty" THEN TypedTextFrom(kinds, ws, k + 1, i)
+    ELSE IF kinds[k] = "s" THEN i <= Len(ws) /\ ws[i] = "<token>" /\ TypedTextFrom(kinds, ws, k + 1, i + 1)
+    ELSE \/ (i <= Len(ws) /\ ws[i] \in TextForms(kinds[k]) /\ TypedTextFrom(kinds, ws, k + 1, i + 1))
+         \/ (kinds[k] = "d" /\ i + 1 <= Len(ws) /\ ws[i] = "2024-01-02" /\ ws[i + 1] = "03:04:05"    \* date and time as two words
+                /\ TypedTextFrom(kinds, ws, k + 1, i + 2))
+TypedTextOK(kinds, ws) == TypedTextFrom(kinds, ws, 1, 1)
+
 \* a header-less typed grid (ODS): every row in place; trailing all-empty columns may be trimmed
 TypedGridOK(kinds, grid, fmt, dev) ==
     /\ Len(grid) = Len(kinds)
